@@ -31,6 +31,7 @@ from lxml.builder import E
 
 from spyne.protocol.soap.soap11 import Soap11
 from spyne.protocol.xml import _append
+from spyne.error import printable_text
 from spyne.util.six import string_types
 from spyne.util.etreeconv import root_dict_to_etree
 from spyne.const.xml import NS_SOAP12_ENV, NS_XML, PREFMAP
@@ -139,7 +140,7 @@ class Soap12(Soap11):
         # with xml character references
         reason = E("{%s}Reason" % self.ns_soap_env)
         reason.append(E("{%s}Text" % self.ns_soap_env,
-                        html.fromstring(inst.faultstring).text,
+                        printable_text(html.fromstring(inst.faultstring).text),
                         **{'{%s}lang' % NS_XML: inst.lang}))
 
         subelts = [
